@@ -102,7 +102,7 @@ struct W {
         } while (v);
     }
     void sint(int64_t v) {
-        uint64_t m = v < 0 ? (uint64_t)(-v) : (uint64_t)v;
+        uint64_t m = v < 0 ? (uint64_t)0 - (uint64_t)v : (uint64_t)v;  // (also right for the most negative value)
         uint64_t first = ((m & 0x3F) << 1) | (v < 0 ? 1 : 0);
         m >>= 6;
         if (m) first |= 0x80;
